@@ -56,7 +56,11 @@ impl Ntv2Grid {
             // The NTv2 spec does not guarantee the order of subgrids, so we must create
             // a lookup table from parent to children to make it possible for `find_grid` to
             // have a start point for working out which subgrid, if any, contains the point
-            subgrids.insert(name.clone(), grid);
+            // Sub grid names are unique, according to the NTv2 spec. Duplicates could make
+            // the parent/child relations cyclic, and hence make lookups loop forever
+            if subgrids.insert(name.clone(), grid).is_some() {
+                return Err(Error::Invalid("Duplicate sub grid name in NTv2 file".to_string()));
+            }
             lookup_table
                 .entry(parent)
                 .or_insert_with(Vec::new)
